@@ -197,73 +197,26 @@ def run(chk):
                 flag = p
                 r2.require(isinstance(d, ast.Constant) and d.value is True, f"{fi.key}|flag-default", fi.where(),
                            f"default of `{p}` must be True (CalTRACK 3.5.1.1 masking on by default); found {unparse(d)}")
-        # the frame of dropped rows: second element of the unpacking of self._initialize_data(...)
-        init_stmt = None
-        kept = dropped = None
-        for st in cfg.stmts():
-            if isinstance(st, ast.Assign) and isinstance(st.value, ast.Call) and unparse(st.value.func) == "self._initialize_data" \
-                    and isinstance(st.targets[0], (ast.Tuple, ast.List)) and len(st.targets[0].elts) == 2:
-                init_stmt = st
-                kept, dropped = (unparse(x) for x in st.targets[0].elts)
-        if init_stmt is None:
-            raise AnalysisError(f"{fi.key}: the `kept, dropped = self._initialize_data(...)` anchor is gone")
-        # the result: return <expr> whose slice contains pd.concat([... kept' ..., dropped])
-        rets = [s for s in cfg.stmts() if isinstance(s, ast.Return)]
-        if not rets:
-            raise AnalysisError(f"{fi.key}: no return")
-        for ret in rets:
-            sl = backward_slice_exprs(rd, ret, ret.value, depth=3)
-            concats = [n for e in sl for n in ast.walk(e) if isinstance(n, ast.Call) and unparse(n.func) == "pd.concat"]
-            has_both = False
-            for c in concats:
-                if c.args and isinstance(c.args[0], (ast.List, ast.Tuple)):
-                    names = [unparse(x) for x in c.args[0].elts]
-                    if dropped in names and kept in names and len(names) == 2:
-                        has_both = True
-            r3.require(has_both, f"{fi.key}|result=concat(kept+pred, dropped)", fi.where(ret),
-                       f"{fi.key}: the returned frame is not `concat([{kept} (with predictions), {dropped}])`: rows are lost or invented")
-            sorted_last = isinstance(ret.value, ast.Call) and isinstance(ret.value.func, ast.Attribute) and ret.value.func.attr == "sort_index"
-            if not sorted_last:
-                sorted_last = any(isinstance(e, ast.Call) and isinstance(e.func, ast.Attribute) and e.func.attr == "sort_index" for e in sl[:2])
-            r3.require(sorted_last, f"{fi.key}|sorted", fi.where(ret), f"{fi.key}: result is not sorted by index after re-appending the dropped rows")
-        # R07.2 effective stores
-        stores = [st for st in cfg.stmts() if _effective_nan_store(rd, st, dropped)]
-
-        def atomizer(e):
-            s, neg = boolalg.strip_truthiness(e)
-            if flag and isinstance(s, ast.Name) and s.id == flag:
-                return ("flag", neg)
-            if isinstance(s, ast.Compare) and len(s.ops) == 1 and isinstance(s.ops[0], (ast.In, ast.NotIn)) and const_str(s.left) == "observed" \
-                    and unparse(s.comparators[0]) in (f"{dropped}.columns", dropped, f"{dropped}.keys()", f"{kept}.columns", f"{kept}"):
-                return ("hascol", neg != isinstance(s.ops[0], ast.NotIn))
-            return None
-        env = {"flag": True, "hascol": True}
-        ev = lambda t: boolalg.ev3(t, atomizer, env)
-        bypass = feasible_reach(cfg, {EXIT}, ev, src=id(init_stmt), avoid={id(s) for s in stores})
-        r2.require(bool(stores) and not bypass, f"{fi.key}|mask-observed-where-temperature-missing", fi.where(init_stmt),
-                   f"{fi.key}: with masking on, a path reaches the return without an effective NaN store into `{dropped}['observed']` for rows whose "
-                   f"temperature is missing ({len(stores)} effective store(s) found) — those days keep their consumption although they get no prediction",
-                   sample={"function": fi.key, "frame": dropped, "effective_stores": [unparse(s)[:100] for s in stores]})
-        # the store must precede the concat that consumes `dropped`
-        for s in stores:
-            for ret in rets:
-                r2.require(cfg.paths_avoiding(id(s), id(ret), set()), f"{fi.key}|store-before-return", fi.where(s), "masking store is not upstream of the return")
-        # R07.3: predictions indexed by segments of `kept`, joined with default (left) join
-        seg_ok = False
-        join_ok = False
-        for st in cfg.stmts():
-            for c in calls_in(st) if not isinstance(st, (ast.For, ast.If, ast.While, ast.With, ast.Try)) else []:
-                if isinstance(c.func, ast.Attribute) and c.func.attr == "join":
-                    recv = unparse(c.func.value)
-                    how = kwarg(c, "how")
-                    if recv == kept:
-                        join_ok = how is None or const_str(how) == "left"
-                        if not join_ok:
-                            r3.violate(f"{fi.key}|join-how", fi.where(st), f"{fi.key}: predictions are joined with how={unparse(how)}; rows without a complete input could receive/lose predictions")
-                if unparse(c.func) == "self._meter_segment" and len(c.args) >= 2 and unparse(c.args[1]) == kept:
-                    seg_ok = True
-        r3.require(seg_ok, f"{fi.key}|segments-of-kept", fi.where(), f"{fi.key}: prediction segments are not taken from the cleaned frame `{kept}`")
-        r3.require(join_ok, f"{fi.key}|left-join", fi.where(), f"{fi.key}: predictions are not left-joined onto the cleaned frame `{kept}`")
+        # The assembly is interpreted from the AST on an abstract frame (rules/daily_predict.py): which rows each returned part
+        # holds, what was joined onto them, which in-place stores reached the returned objects — for the flag on/off, with and
+        # without an observed column, and both ways of every data-dependent branch (`frame.empty`).
+        from rules.daily_predict import judge_predict, predict_outcomes
+        owner = fi.cls if fi.cls is not None else daily
+        outs = predict_outcomes(chk, owner, fi)
+        seen_msgs = set()
+        for o in outs:
+            for ob, msg in judge_predict(o):
+                rule = {"mask": r2, "lost": r1, "kept": r3, "rows": r3}[ob]
+                key = {"mask": f"{fi.key}|mask-observed-where-temperature-missing", "lost": f"{fi.key}|store-into-temporary",
+                       "kept": f"{fi.key}|predicts-only-complete-rows", "rows": f"{fi.key}|result=concat(kept+pred, dropped)"}[ob]
+                if (key, msg[:80]) in seen_msgs:
+                    continue
+                seen_msgs.add((key, msg[:80]))
+                rule.require(False, key, fi.where(), f"{fi.key}: {msg}", sample={"function": fi.key, "scenario": {k_: o[k_] for k_ in ("with_observed", "mask_on", "decisions")}})
+        for key_, rule in ((f"{fi.key}|mask-observed-where-temperature-missing", r2), (f"{fi.key}|store-into-temporary", r1),
+                           (f"{fi.key}|predicts-only-complete-rows", r3), (f"{fi.key}|result=concat(kept+pred, dropped)", r3)):
+            rule.inst(key_)
+        r3.inst(f"{fi.key}|scenarios={len(outs)}")
         # callers never switch the flag off
         if flag:
             for g in chk.repo.all_functions():
@@ -296,48 +249,21 @@ def run(chk):
                        f"(the one whose usage was masked on days without temperature), otherwise period sums include days that got no prediction",
                        sample={"function": p.qualname, "observed": ob, "predicted": pr})
 
-    # ---------------- R07.3 (b): _initialize_data complement pair
+    # ---------------- R07.3 (b): _initialize_data complement pair (interpreted)
+    from rules.daily_predict import initialize_outcomes, judge_initialize
+    done = set()
     for c in fams:
         fi = method(chk, c, "_initialize_data")
-        key = f"{fi.key}|complement"
-        if key in r3.instances:
+        if fi.key in done:
             continue
-        cfg = CFG(fi.node)
-        rd = ReachingDefs(fi.node, cfg)
-        rets = [s for s in cfg.stmts() if isinstance(s, ast.Return)]
-        full = [r for r in rets if isinstance(r.value, ast.Tuple) and len(r.value.elts) == 2]
-        r3.require(len(full) == len(rets) and rets, f"{fi.key}|returns-pair", fi.where(), f"{fi.key} must return (kept, dropped) on every path")
-        final = rets[-1] if rets else None
-        if final is None:
-            continue
-        kept_e, drop_e = final.value.elts
-        ksl = backward_slice_exprs(rd, final, kept_e, depth=6)
-        ktxt = " ".join(unparse(e) for e in ksl)
-        # rows with missing temperature / missing observed must not survive into the kept frame
-        def removed(col):
-            for e in ksl:
-                for n in ast.walk(e):
-                    if isinstance(n, ast.Call) and isinstance(n.func, ast.Attribute) and n.func.attr == "dropna":
-                        sub = kwarg(n, "subset")
-                        how = kwarg(n, "how")
-                        if how is not None and const_str(how) == "all":
-                            continue
-                        if sub is None and not n.args:
-                            return True
-                        if sub is not None and col in unparse(sub):
-                            return True
-                    if isinstance(n, ast.Subscript) and isinstance(n.slice, ast.Call) and unparse(n.slice.func) in ("np.isfinite", "pd.notna", "pd.notnull") \
-                            and n.slice.args and col in unparse(n.slice.args[0]):
-                        return True
-                    if isinstance(n, ast.Subscript) and isinstance(n.slice, ast.Call) and isinstance(n.slice.func, ast.Attribute) \
-                            and n.slice.func.attr in ("notna", "notnull") and col in unparse(n.slice.func.value):
-                        return True
-            return False
-        r3.require(removed("temperature"), f"{fi.key}|drop-missing-temperature", fi.where(final),
-                   f"{fi.key}: rows with missing temperature are not removed before prediction")
-        r3.require(removed("observed"), f"{fi.key}|drop-missing-observed", fi.where(final),
-                   f"{fi.key}: rows with missing usage are not removed before prediction: a day without consumption would still get a prediction")
-        dsl = backward_slice_exprs(rd, final, drop_e, depth=3)
-        dtxt = " ".join(unparse(e) for e in dsl)
-        comp = f"~" in dtxt and ".index.isin(" in dtxt and unparse(kept_e) + ".index" in dtxt
-        r3.require(comp, key, fi.where(final), f"{fi.key}: dropped rows are not the complement `~all.index.isin(kept.index)` of the kept rows")
+        done.add(fi.key)
+        msgs = set()
+        for o in initialize_outcomes(chk, fi.cls or c, fi):
+            for ob, msg in judge_initialize(o):
+                key = f"{fi.key}|complement" if ob == "rows" else f"{fi.key}|kept-rows-complete"
+                if (key, msg[:80]) in msgs:
+                    continue
+                msgs.add((key, msg[:80]))
+                r3.require(False, key, fi.where(), f"{fi.key}: {msg}")
+        r3.inst(f"{fi.key}|complement")
+        r3.inst(f"{fi.key}|kept-rows-complete")
